@@ -243,6 +243,9 @@ func genVal(t *rapid.T, vt VT, lbl string, decoyTags []string, small bool) *Val 
 		} else {
 			v.T = rapid.Int64Range(minTimeMs, maxTimeMs).Draw(t, lbl)
 		}
+		if rapid.IntRange(0, 3).Draw(t, lbl+"SubMs") == 0 {
+			v.Sub = rapid.SampledFrom([]int32{1, 499999, 500000, 999999}).Draw(t, lbl+"Sub")
+		}
 	case TBool:
 		v.B = rapid.Bool().Draw(t, lbl)
 	}
